@@ -24,6 +24,8 @@ TECHNIQUE += '; key identity: own __eq__/__ne__/__hash__ of RuleInfo / MemoKey i
 LEVEL_TEXT += ' Added clause: the memo key tells rules apart whose names differ only by underscores, case or a suffix.'
 TECHNIQUE += '; type of the container bound to _results (no evicting __setitem__)'
 LEVEL_TEXT += ' Added clause: seeds and guards of active left recursion are never evicted.'
+TECHNIQUE += '; ParserConfig.__post_init__ interpreted over setting combinations: tracing switches change no other setting'
+LEVEL_TEXT += ' Added clause: tracing cannot switch memoization or left recursion.'
 LEVEL_NOTE = ('Trusted: dict semantics of BoundedDict eviction (only deletes); an evicted or pruned entry only makes a '
               'rule body run again because the sole reader returns/raises the stored outcome unchanged.')
 EXPLANATION = ('Static analysis of /repo sources, TatSu not imported. Memo-store accesses are enumerated over the '
